@@ -119,7 +119,8 @@ extern size_t vc_k;
       (VC_IN_BUF(p, (s)->current_value.string_value) &&                                             \
        (s)->current_value.string_value.bsize <= VC_MAX_NAME)) &&                                    \
      VC_FLAGS_OK((s)->flags) &&                                                                     \
-     (((s)->flags == VC_ST_ARR1 || (s)->flags == VC_ST_ARR2) ==> (s)->array_depth > 0))
+     (((s)->flags == VC_ST_ARR1 || (s)->flags == VC_ST_ARR2) ==> (s)->array_depth > 0) &&           \
+     (((s)->flags == VC_ST_FIELD || (s)->flags == VC_ST_VALUE) ==> (s)->array_depth == 0))
 
 /* a level holds nothing (as after memset 0) */
 #define VC_LEVEL_ZERO(s)                                                                            \
@@ -142,7 +143,19 @@ extern size_t vc_k;
 /* what holds of the scalar fields whenever no error is latched */
 #define VC_WF_SCALARS(p)                                                                            \
     ((p)->buffer_used <= (p)->buffer_size &&                                                        \
-     ((p)->type == VC_PT_OBJECT || (p)->type == VC_PT_ARRAY) && (p)->cb == NULL)
+     ((p)->type == VC_PT_OBJECT || (p)->type == VC_PT_ARRAY) && (p)->cb == NULL &&                  \
+     /* an array-rooted parser is at level 1 from reset on; an object-rooted one is at level 0      \
+      * only before its root (first byte, checked by reset) or behind it (end of buffer) */          \
+     ((p)->type == VC_PT_ARRAY ==> (p)->depth >= 1) &&                                              \
+     /* level 0 of an array-rooted parser is the root array: object flags there mean it has ended */  \
+     (((p)->type == VC_PT_ARRAY && ((p)->state[0].flags == VC_ST_FIELD ||                           \
+                                    (p)->state[0].flags == VC_ST_VALUE)) ==>                        \
+      (p)->buffer_used == (p)->buffer_size) &&                                                      \
+     ((p)->type == VC_PT_OBJECT ==> ((p)->buffer_size >= 2 && (p)->buffer[0] == 0x40)) &&           \
+     ((p)->depth == 0 ==> (                                                                         \
+                           ((p)->buffer_used == 0 || (p)->buffer_used == (p)->buffer_size) &&       \
+                           (p)->state[0].flags == VC_ST_UNDEF && (p)->state[0].array_depth == 0 &&  \
+                           (p)->state[0].current_name.bptr == NULL)))
 
 /* Class invariant as the API functions see it (E1): the scalar fields and the level in use.
  * EQ = how "current_state points at state[idx]" is written: __CPROVER_pointer_equals in
